@@ -19,7 +19,6 @@ def tables : List (String → List String → Option String) := []
   ++ [Drv.codecsTable]
   ++ [Drv.TracksV1.specTable]
   ++ [Drv.T2.table]
-  ++ [Drv.TableApi.specTable]
 
 /-- Stateful groups, selected by a first line `#mode <name>`. -/
 def modes : List Mode := []
